@@ -52,6 +52,7 @@ type worker struct {
 	results []opResult
 	calls   int // key-cache calls entered since the current op began (1 = the outermost, lock-free one)
 	panicv  any
+	ungated bool // set by a program: its remaining operations run without scheduling points
 }
 
 func (w *worker) dec(s *appencryption.Session, r rec) {
@@ -144,6 +145,26 @@ func cells() []cell {
 			}})
 		}
 	}
+	// the same with a key that is refreshed in place (revoke-check re-read, which re-inserts the entry under its
+	// existing cache key) by the very lookup that hands it to g1, before the churn
+	for _, pol := range []string{"lru", "lfu", "slru", "tinylfu"} {
+		cfgR := sharedCfg(pol, 2)
+		cfgR.Revoke = time.Nanosecond
+		out = append(out, cell{name: fmt.Sprintf("shared-%s-cap2/refreshed-hot-key-vs-churn", pol), cfg: cfgR, noWarm: true, parts: []string{"P1", "P2", "P3", "P4"}, workers: func(e *cenv) []*worker {
+			_, _ = e.sess["P1b"].Decrypt(context.Background(), *world.CopyDRR(e.recs["P1"].drr))
+			time.Sleep(time.Microsecond) // the cached entry is stale now: the next use re-reads and re-inserts it
+			return []*worker{
+				{label: "g1", prog: func(w *worker) { w.dec(e.sess["P1"], e.recs["P1"]) }},
+				{label: "g2", prog: func(w *worker) {
+					w.dec(e.sess["P2"], e.recs["P2"])
+					w.ungated = true // the rest of the churn runs without further scheduling points
+					w.dec(e.sess["P3"], e.recs["P3"])
+					w.dec(e.sess["P4"], e.recs["P4"])
+					w.dec(e.sess["P2"], e.recs["P2"])
+				}},
+			}
+		}})
+	}
 	// the latest key is flagged revoked inside the creation-date precision unit in which it was created (no later stamp
 	// can be created yet, so the reload comes back with a new object for the same key id) while another goroutine
 	// of the same cache holds the old object: default "simple" shared cache and bounded ones
@@ -190,6 +211,7 @@ func cells() []cell {
 	rf := sharedCfg("lru", 2)
 	rf.Revoke = time.Nanosecond
 	out = append(out, cell{name: "shared-lru-cap2/refresh-every-access", cfg: rf, parts: []string{"P1", "P2"}, workers: func(e *cenv) []*worker {
+		time.Sleep(time.Microsecond) // virtual time has to move for the warmed entries to count as stale
 		return []*worker{
 			{label: "g1", prog: func(w *worker) { w.dec(e.sess["P1"], e.recs["P1"]); w.enc(e.sess["P1"], "P1") }},
 			{label: "g2", prog: func(w *worker) { w.dec(e.sess["P1b"], e.recs["P1"]) }},
@@ -294,6 +316,9 @@ func runCell(c cell, d *sched.DFS) (out schedOutcome) {
 			return
 		}
 		w := byLabel[l]
+		if w.ungated {
+			return
+		}
 		switch point {
 		case "kc.getorload.enter", "kc.getorloadlatest.enter":
 			w.calls++
